@@ -127,3 +127,28 @@ pub fn parse_opt_bool(s: &str) -> Option<bool> {
         _ => Some(false),
     }
 }
+
+
+/// set once a guarded call did not return: later guarded calls are skipped so that the run can finish and report
+pub static SPUN: std::sync::atomic::AtomicBool = std::sync::atomic::AtomicBool::new(false);
+
+/// run `f` on a thread of its own and wait at most `secs` seconds of real time for it: `None` = it did not return
+/// (the thread is left behind, spinning; the process exits when the run has written its outputs)
+pub fn guarded<T: Send + 'static>(secs: u64, f: impl FnOnce() -> T + Send + 'static) -> Option<T> {
+    if SPUN.load(std::sync::atomic::Ordering::SeqCst) {
+        return None;
+    }
+    let (tx, rx) = std::sync::mpsc::channel();
+    let _ = std::thread::Builder::new().stack_size(8 << 20).spawn(move || {
+        let _ = tx.send(f());
+    });
+    match rx.recv_timeout(std::time::Duration::from_secs(secs)) {
+        Ok(v) => Some(v),
+        Err(std::sync::mpsc::RecvTimeoutError::Timeout) => {
+            SPUN.store(true, std::sync::atomic::Ordering::SeqCst);
+            None
+        }
+        // the thread died without sending (a panic that was not caught inside `f`)
+        Err(_) => None,
+    }
+}
